@@ -65,6 +65,18 @@ def audit_binning(rec: core.Recorder, b, *, op: str, detail=None, deep: bool = T
             fail("is_consecutive() is False for exactly adjacent bins", ["is_consecutive"])
         if clear_gap and ic:
             fail("is_consecutive() is True although there is a clear gap", ["is_consecutive"], bins=bins[:6])
+        # the answer belongs to the tolerance of the question: asking generously first (or exactly first) does not change later answers
+        probe = b.copy()
+        span = float(abs(bins[-1, 1] - bins[0, 0])) if n else 1.0
+        first_generous = bool(probe.is_consecutive(atol=span + 1.0))
+        then_exact = bool(probe.is_consecutive())
+        if then_exact != ic:
+            fail("is_consecutive() answers differently after it was asked with a tolerance (the earlier answer is remembered)", ["is_consecutive"],
+                 fresh=ic, after_tolerant_call=then_exact, tolerant_answer=first_generous, bins=bins[:6])
+        probe = b.copy()
+        probe.is_consecutive()
+        if n > 1 and not exact_cons and not bool(probe.is_consecutive(atol=span + 1.0)):
+            fail("is_consecutive(atol=<more than the whole range>) is False after an exact call (the earlier answer is remembered)", ["is_consecutive"], bins=bins[:6])
     except Exception as e:
         fail(f"is_consecutive raises {type(e).__name__}", ["is_consecutive"], error=str(e)[:100])
     if exact_cons:
@@ -102,9 +114,10 @@ def audit_binning(rec: core.Recorder, b, *, op: str, detail=None, deep: bool = T
         reg = bool(b.is_regular())
         if name == "ExponentialBinning":
             pass  # declared irregular by design (even for one bin)
-        elif spread <= 2e-9 and not reg:
+        elif spread <= 1e-9 * float(widths.max()) and not reg:
             fail("is_regular() is False although all widths are equal", ["is_regular"], widths=widths[:6])
-        elif spread > 1e-6 * float(widths.max()) and spread > 1e-6 and reg and name != "FixedWidthBinning":
+        elif spread > 1e-3 * float(widths.max()) and reg and name != "FixedWidthBinning":
+            # judged relative to the widths: bins of nanoseconds are as regular or irregular as bins of hours
             fail("is_regular() is True although the widths clearly differ", ["is_regular"], widths=widths[:6])
     except Exception as e:
         fail(f"is_regular raises {type(e).__name__}", ["is_regular"], error=str(e)[:100])
